@@ -128,8 +128,8 @@ def run(chk, build):
     from json_to_models.registry import ModelRegistry
     gr = gen.Gen(chk.seed * 1000003 + 88)
     for i in range(300 if tier == "quick" else 10000):
-        s = gr.literal_heavy() if i % 15 == 4 else gr.samples(depth=4, nmax=4)
-        spec = gr.r.choice([None, [("exact",)], [("percent", 0.5)], [("number", 2)], [("number", 1)], [("percent", 0.7), ("number", 3)]])
+        s = gr.literal_heavy() if i % 15 == 4 else gr.family() if i % 3 == 1 else gr.variants() if i % 3 == 2 else gr.samples(depth=4, nmax=4)
+        spec = gr.r.choice([None, [("exact",)], [("percent", 0.5)], [("number", 2)], [("number", 1)], [("number", 10)], [("percent", 0.7), ("number", 3)]])
         sreg = impl.make_registry(RN3)
         G = MetadataGenerator(sreg)
         reg = ModelRegistry(*impl.make_cmp(spec))
